@@ -2,6 +2,7 @@
 import CoolerModel.Props.C20
 import CoolerModel.Props.C15
 import CoolerModel.Props.C03
+import CoolerModel.Props.C01
 import CoolerModel.Props.C02
 import CoolerModel.Props.C12
 import CoolerModel.Props.C19
